@@ -147,10 +147,26 @@ def extract():
                 if ("lock" in guard or "guard" in guard or "mutex" in guard) and "is_locked()" in inner and (".lock()" in inner or '["lock"] = True' in inner.replace("'", '"')):
                     ok = True
         if not ok:
+            inner = None
+            if hasattr(bptk, "try_lock"):
+                # where test and set really happen (inside the primitive), so that a replay can separate them
+                src, first = inspect.getsourcelines(bptk.try_lock)
+                t = ast.parse(textwrap.dedent("".join(src))).body[0]
+                tl = sl = None
+                for n in ast.walk(t):
+                    if isinstance(n, ast.If) and "is_locked()" in ast.unparse(n.test) and tl is None:
+                        tl = first + n.lineno - 1
+                    if isinstance(n, (ast.Expr, ast.Assign)):
+                        u = ast.unparse(n).replace("'", '"')
+                        if (u.endswith(".lock()") or u.endswith('["lock"] = True')) and sl is None:
+                            sl = first + n.lineno - 1
+                if tl and sl and tl != sl:
+                    inner = {"code": bptk.try_lock.__code__, "test": tl, "lock": sl}
             for h in hs.values():
                 if h["atomic_test"]:
                     h["atomic_test"] = False         # modelled as a separate test and set: the solver will find the window
                     h["lock"] = h["test"]
+                    h["inner"] = inner
     # lock primitives must be plain flag operations (otherwise the encoding does not apply)
     for nm in ("lock", "unlock", "is_locked"):
         s = inspect.getsource(getattr(bptk, nm))
@@ -363,10 +379,13 @@ def real_run(sc, hs, rs):
     for k in set(kinds):
         h = hs[k]
         table = {}
-        if h["test"]:
-            table[h["test"]] = lambda frame: "T"
-        if h["lock"] and not h["atomic_test"]:
-            table[h["lock"]] = lambda frame: "L"
+        if h.get("inner"):
+            watch.setdefault(h["inner"]["code"], {}).update({h["inner"]["test"]: (lambda frame: "T"), h["inner"]["lock"]: (lambda frame: "L")})
+        else:
+            if h["test"]:
+                table[h["test"]] = lambda frame: "T"
+            if h["lock"] and not h["atomic_test"]:
+                table[h["lock"]] = lambda frame: "L"
         for ln in (h["unlock_normal"], h["unlock_error"]):
             if ln:
                 table[ln] = lambda frame: "U"
